@@ -27,7 +27,7 @@ func HookKinds() []string {
 	return append(append([]string{}, hookKinds...), "extendUnexported", "extendUnexportedCtx")
 }
 
-var hookKinds = []string{"extend", "extendExt", "extendErr", "extendCtx", "extendConv", "extendRegex", "method", "methodErr", "mapFunc", "mapFuncErr", "mapNoSource", "underlying", "underlyingMethod", "extendErrCtx", "extendSame", "extendExtCtxRegex", "delegate", "delegateErr", "mapWhole", "mapWholePtr", "underlyingErr", "basicErr", "srcMethodCtx", "srcMethodErr"}
+var hookKinds = []string{"extend", "extendExt", "extendErr", "extendCtx", "extendConv", "extendRegex", "method", "methodErr", "mapFunc", "mapFuncErr", "mapNoSource", "underlying", "underlyingMethod", "extendErrCtx", "extendSame", "extendExtCtxRegex", "delegate", "delegateErr", "mapWhole", "mapWholePtr", "underlyingErr", "basicErr", "srcMethodCtx", "srcMethodErr", "dualCtx"}
 
 // CustomCase builds one case mixing automatic rules with custom functions.
 func CustomCase(r *rand.Rand, name string, o CustomOpts) *Case {
@@ -46,6 +46,9 @@ func CustomCase(r *rand.Rand, name string, o CustomOpts) *Case {
 	}
 	ctxA := decl("CtxA", Struct(F("ID", Basic("string"))))
 	ctxB := decl("CtxB", Struct(F("ID", Basic("string"))))
+	ctxD := decl("CtxD", Struct(F("ID", Basic("string"))))
+	decl("CtxNever", Struct(F("ID", Basic("string"))))
+	needCtxD := false
 	sS := &Type{K: KStruct}
 	tS := &Type{K: KStruct}
 	S := decl("S", sS)
@@ -73,7 +76,7 @@ func CustomCase(r *rand.Rand, name string, o CustomOpts) *Case {
 				kind, forcePriv, forcePrivCtx = "extend", true, true
 			}
 		} else if o.Fallible && i == 1 {
-			kind = []string{"extendErr", "methodErr", "mapFuncErr", "extendErrCtx", "delegateErr", "underlyingErr", "basicErr", "srcMethodCtx", "srcMethodErr"}[r.Intn(7)]
+			kind = []string{"extendErr", "methodErr", "mapFuncErr", "extendErrCtx", "delegateErr", "underlyingErr", "basicErr", "srcMethodCtx", "srcMethodErr", "dualCtx"}[r.Intn(7)]
 		}
 		if o.WrapLevel == "meth" {
 			// wrapping configured on the METHOD: only positions that are converted inline by that method
@@ -90,7 +93,7 @@ func CustomCase(r *rand.Rand, name string, o CustomOpts) *Case {
 		}
 		failStmt := fmt.Sprintf("\tif err := vref.Fail(int64(a.V)); err != nil {\n\t\treturn ty.HB%d{}, err\n\t}\n", i)
 		switch kind {
-		case "extend", "extendExt", "extendErr", "extendCtx", "extendConv", "extendRegex", "extendErrCtx", "extendSame", "extendExtCtxRegex":
+		case "extend", "extendExt", "extendErr", "extendCtx", "extendConv", "extendRegex", "extendErrCtx", "extendSame", "extendExtCtxRegex", "dualCtx":
 			fname := fmt.Sprintf("Ext%d", i)
 			if kind == "extendRegex" {
 				fname = fmt.Sprintf("Hook%dRx", i)
@@ -124,6 +127,14 @@ func CustomCase(r *rand.Rand, name string, o CustomOpts) *Case {
 				fmt.Fprintf(&funcsExt, "// Near%d is unrelated; its parameter ctx is its source.\nfunc Near%d(ctx ty.CtxB) ty.CtxB { return ctx }\n\n", i, i)
 				convLines = append(convLines, fmt.Sprintf("extend %s/ext:Near%d", c.Root, i))
 				needCtxA = true
+				roles = []string{"source", "ctx"}
+			case "dualCtx":
+				// two functions for the same pair with disjoint contexts: the one whose context nobody supplies is
+				// registered first, the other one has to be used
+				fmt.Fprintf(sb, "// goverter:context c\nfunc Never%d(a ty.HA%d, c ty.CtxNever) ty.HB%d {\n\treturn ty.HB%d{V: -7, Tag: \"NEVER\"}\n}\n\n", i, i, i, i)
+				fmt.Fprintf(sb, "// goverter:context c\nfunc %s(a ty.HA%d, c ty.CtxD) ty.HB%d {\n\treturn %s\n}\n\n", fname, i, i, hookBody(fname, " + \"|\" + c.ID"))
+				convLines = append(convLines, fmt.Sprintf("extend Never%d", i))
+				needCtxD = true
 				roles = []string{"source", "ctx"}
 			case "extendErr":
 				fmt.Fprintf(sb, "func %s(a ty.HA%d) (ty.HB%d, error) {\n%s\treturn %s, nil\n}\n\n", fname, i, i, failStmt, hookBody(fname, ""))
@@ -543,6 +554,9 @@ func CustomCase(r *rand.Rand, name string, o CustomOpts) *Case {
 	}
 	if needCtxB {
 		addCtx("cb", ctxB)
+	}
+	if needCtxD {
+		addCtx("cd", ctxD)
 	}
 	if !needCtxA && !needCtxB && r.Intn(4) == 0 {
 		// an unused context must not disturb anything
